@@ -12,18 +12,20 @@ from . import common, vloop
 from .common import clist, cbool, cz, cnat, copt
 
 IMPORTS = "From Verif Require Import Values Init."
-MS = 1000
+MS = 500          # one model time unit ("tick") = 0.5 ms of virtual time
+TPS = 2000        # ticks per second
 
 
 class Boom(Exception):
     pass
 
 
-def _mk_classes(log):
+def _mk_classes(log, flags):
     class ProbeBase(edzed.AddonPersistence, edzed.SBlock):
         def __init__(self, *args, spec, pos, **kwargs):
             self.spec = spec
             self.pos = pos
+            self.depth = 0          # own init routines in progress
             super().__init__(*args, **kwargs)
 
         def get_state(self):
@@ -34,22 +36,35 @@ def _mk_classes(log):
             if state == 'raises':
                 raise Boom('restore')
             if state == 'sets':
-                self.set_output(1)
+                self.depth += 1
+                try:
+                    self.set_output(1)
+                finally:
+                    self.depth -= 1
 
         def init_regular(self):
             log.append(['regular', self.pos])
             kind = self.spec['regular']
             if kind == 'sets':
-                self.set_output(1)
+                self.depth += 1
+                try:
+                    self.set_output(1)
+                finally:
+                    self.depth -= 1
             elif kind == 'raises':
                 raise Boom('regular')
 
         def init_from_value(self, value):
             log.append(['from_value', self.pos])
-            self.set_output(value)
+            self.depth += 1
+            try:
+                self.set_output(value)
+            finally:
+                self.depth -= 1
 
         def _event_put(self, **_data):
             log.append(['handler', self.pos])
+            flags.append(self.depth > 0)
             if self.spec['hsets']:
                 self.set_output(1)
 
@@ -62,7 +77,7 @@ def _mk_classes(log):
             _tmo, script, d = self.spec['async']
             if script == 'never':
                 await asyncio.Event().wait()
-            await asyncio.sleep(d / 1000)
+            await asyncio.sleep(d / TPS)
             if script == 'raise':
                 raise Boom('async')
             self.set_output(1)
@@ -80,14 +95,15 @@ def _mk_classes(log):
 def run_one(specs, cblock, cleanup):
     """specs in creation order (dests are positions).  Returns the observation."""
     log = []
-    obs = dict(log=log, ok=None, exc=None, t_ms=None, defined=None, ready=None, harness=None)
+    flags = []
+    obs = dict(log=log, flags=flags, ok=None, exc=None, t_ms=None, defined=None, ready=None, harness=None)
 
     async def main(loop):
         edzed.reset_circuit()
         circuit = edzed.get_circuit()
         store = {}
         circuit.set_persistent_data(store)
-        Probe, ProbeA, Cleanup = _mk_classes(log)
+        Probe, ProbeA, Cleanup = _mk_classes(log, flags)
         blocks = []
         for pos, sp in enumerate(specs):
             name = f"b{pos}"
@@ -101,7 +117,7 @@ def run_one(specs, cblock, cleanup):
             if kind == 'probe':
                 if sp['async'] is not None:
                     blk = ProbeA(name, spec=sp, pos=pos, persistent=sp['persistent'],
-                                 init_timeout=sp['async'][0] / 1000, **kw)
+                                 init_timeout=sp['async'][0] / TPS, **kw)
                 else:
                     blk = Probe(name, spec=sp, pos=pos, persistent=sp['persistent'], **kw)
                 if sp['persistent'] and sp['restore'] != 'absent':
@@ -112,11 +128,11 @@ def run_one(specs, cblock, cleanup):
                 async def coro(script=script, d=d):
                     if script == 'never':
                         await asyncio.Event().wait()
-                    await asyncio.sleep(d / 1000)
+                    await asyncio.sleep(d / TPS)
                     if script == 'raise':
                         raise Boom('async')
                     return 1
-                blk = edzed.InitAsync(name, init_coro=[coro], init_timeout=tmo / 1000, **kw)
+                blk = edzed.InitAsync(name, init_coro=[coro], init_timeout=tmo / TPS, **kw)
             else:   # valuepoll: the value appears with poll number sp['poll_k'] (polls every poll_i ms)
                 tmo, script, d = sp['async']
                 cnt = [0]
@@ -126,8 +142,8 @@ def run_one(specs, cblock, cleanup):
                     if script == 'never' or cnt[0] - 1 < k:
                         return edzed.UNDEF
                     return 1
-                blk = edzed.ValuePoll(name, func=func, interval=sp['poll_i'] / 1000,
-                                      init_timeout=tmo / 1000, **kw)
+                blk = edzed.ValuePoll(name, func=func, interval=sp['poll_i'] / TPS,
+                                      init_timeout=tmo / TPS, **kw)
             if kind != 'probe':
                 for meth, tag in (('init_async', 'async'), ('init_regular', 'regular'),
                                   ('init_from_value', 'from_value')):
@@ -179,6 +195,11 @@ def run_one(specs, cblock, cleanup):
         obs['ready'] = circuit.is_ready()
         obs['defined'] = all(b.output is not edzed.UNDEF for b in allblocks)
         obs['loglen_at_return'] = len(log)
+        err, chain = circuit.error, []
+        while err is not None and len(chain) < 6:
+            chain.append(type(err).__name__ + ': ' + str(err)[:120])
+            err = err.__cause__ or err.__context__
+        obs['err'] = ' <- '.join(chain)
         try:
             await circuit.shutdown()
         except BaseException:                          # noqa
@@ -197,6 +218,7 @@ def run_one(specs, cblock, cleanup):
     finally:
         edzed.reset_circuit()
     obs['log'] = log[:obs.get('loglen_at_return') or len(log)]
+    obs['flags'] = flags[:sum(1 for t, _ in obs['log'] if t == 'handler')]
     return obs
 
 
@@ -254,6 +276,7 @@ class C05(common.Spec):
             allr = self._all(c)
             o = dict(allr[tuple(c['perm'])])
             o['perm_ok'] = [allr[p]['ok'] for p in sorted(allr)]
+            o['perm_err'] = [allr[p].get('err', '') for p in sorted(allr)]
             out.append(o)
         return out
 
@@ -264,7 +287,7 @@ class C05(common.Spec):
         return ("(Build_icase " + clist([c_spec(s) for s in specs]) + " " + cbool(case['cblock'] == 'fail') + " "
                 + clist([f"({CALLS[t]} {cnat(p)})" for t, p in obs['log']]) + " " + cbool(obs['ok'])
                 + " " + cbool(bool(obs['defined']) and bool(obs['ready'])) + " " + cz(obs['t_ms']) + " "
-                + clist([cbool(bool(x)) for x in obs['perm_ok']]) + ")")
+                + clist([cbool(bool(x)) for x in obs['perm_ok']]) + " " + clist([cbool(x) for x in obs['flags']]) + ")")
 
     def nontrivial(self, case, obs):
         return any(t == 'handler' for t, _ in obs['log']) or any(t == 'async' for t, _ in obs['log'])
@@ -315,20 +338,32 @@ class C05(common.Spec):
             for cl in (False, True):
                 yield dict(case, cblock=cb, cleanup=cl)
 
+    def known_class(self, case, obs):
+        # start-up succeeds in some creation orders and fails in others, and every failure is a refused
+        # recursive event() call (cyclic event topology)
+        oks = list(map(bool, obs['perm_ok']))
+        if len(set(oks)) > 1 and all('Forbidden recursive event' in e
+                                     for ok, e in zip(oks, obs.get('perm_err', [])) if not ok):
+            return 'creation_order_dependent:recursive_event_in_cycle'
+        return None
+
     def clause(self, case, obs):
         if obs['ok'] and not (obs['defined'] and obs['ready']):
             return 'wait_init_returned_but_not_ready'
         if len(set(map(bool, obs['perm_ok']))) > 1:
-            return 'creation_order_dependent'
+            return self.known_class(case, obs) or 'creation_order_dependent'
         mx = max([sp['async'][0] for sp in case['base'] if sp['async'] is not None] + [0])
         if obs['t_ms'] > mx:
             return 'waited_longer_than_largest_timeout'
         seen = set()
+        fl = list(obs['flags'])
         for t, b in obs['log']:
             if t == 'regular':
                 seen.add(b)
-            if t == 'handler' and b not in seen:
-                return 'event_handled_before_sync_steps'
+            if t == 'handler':
+                inside = fl.pop(0) if fl else False
+                if b not in seen and not inside:
+                    return 'event_handled_before_sync_steps'
         return 'init_sequence'
 
     def describe(self, case, obs):
@@ -359,18 +394,20 @@ def gen_spec(rng, kind):
         if not sp['initdef']:
             sp['regular'] = 'sets'       # InitAsync.init_regular falls back to None (silently)
     else:
-        sp['poll_i'] = rng.choice([1, 3, 5])
-        sp['poll_k'] = rng.choice([1, 1, 3, 5])
-        tmo = rng.choice([0, -2, 2, 4, 6, 8, 10, 10])
+        sp['poll_i'] = rng.choice([3, 5, 7])          # ticks; poll instants are odd numbers of ticks
+        sp['poll_k'] = rng.choice([1, 1, 3])
+        tmo = rng.choice([0, -4, 4, 8, 12, 16, 20, 20])
         script = rng.choice(['poll', 'poll', 'poll', 'never'])
         sp['async'] = [tmo, script, sp['poll_i'] * sp['poll_k']]
     return sp
 
 
 def gen_async(rng):
-    tmo = rng.choice([0, -2, 2, 4, 6, 8, 10, 10])
+    # ticks of 0.5 ms: timeouts are multiples of 4, completion times 2 mod 4, poll instants odd:
+    # two timers of different kinds never fall on the same instant
+    tmo = rng.choice([0, -4, 4, 8, 12, 16, 20, 20])
     script = rng.choice(['done', 'done', 'done', 'raise', 'never'])
-    d = rng.choice([1, 3, 5, 7, 9, 11, 13])
+    d = rng.choice([2, 6, 10, 14, 18, 22, 26])
     return [tmo, script, d]
 
 
@@ -390,33 +427,71 @@ def gen_base(rng, nmax):
                 continue
             if rng.random() < p:
                 base[src]['dests'].append(dst)
+    if rng.random() < 0.35:
+        # back edges: cyclic event topologies (recursive event() calls are refused by edzed)
+        for a in range(n):
+            for b in range(a):
+                src, dst = order[a], order[b]
+                if base[dst]['kind'] != 'probe' or (base[src]['kind'] == 'initasync' and not base[src]['initdef']):
+                    continue
+                if rng.random() < 0.4:
+                    base[src]['dests'].append(dst)
+        if rng.random() < 0.3:
+            k = rng.randrange(n)
+            if base[k]['kind'] == 'probe':
+                base[k]['dests'].append(k)          # an event to itself
     for sp in base:
-        sp['dests'].sort()
+        sp['dests'] = sorted(set(sp['dests']))
     return base
+
+
+def _p(**kw):
+    sp = dict(kind='probe', persistent=False, restore='absent', regular='noeffect', initdef=False, hsets=True,
+              dests=[])
+    sp['async'] = None
+    sp.update(kw)
+    return sp
+
+
+# directed configurations (shapes of earlier findings / seeded changes); every creation order is run
+DIRECTED = [
+    # the listed finding C05-order-dependent-recursion: a cycle b0 <-> b2 and a third source b1 -> b2
+    [_p(regular='sets', dests=[2]), _p(regular='noeffect', initdef=True, hsets=False, dests=[2]),
+     _p(dests=[0])],
+    # early-initialisation error that used to be swallowed (fixed)
+    [_p(regular='raises', initdef=True), _p(regular='sets', dests=[0]),
+     dict(_p(dests=[0, 1]), **{'async': [20, 'done', 2]})],
+    # a restored state feeds an event back into the restoring block
+    [_p(persistent=True, restore='sets', dests=[1]), _p(dests=[0])],
+    [_p(persistent=True, restore='sets', dests=[1]), _p(regular='sets', dests=[0, 2]), _p(dests=[0])],
+]
 
 
 def check(run):
     spec = C05()
     run.rule = ("1..4 sequential blocks, each a scripted probe (persistent or not; saved state absent/"
                 "failing/without effect/setting the output; init_async absent or with init_timeout in "
-                "{-2,0,2..10 ms} finishing/raising after 1..13 ms or never; init_regular without effect/"
+                "{-2,0,2..10 ms} finishing/raising after 1..13 ms or never (ValuePoll: first value after 1.5..10.5 ms); init_regular without effect/"
                 "setting/raising; initdef present or not; 'put' handler setting the output or ignoring "
-                "the event) or a real InitAsync / ValuePoll; random acyclic on_output event topology "
+                "the event) or a real InitAsync / ValuePoll; random on_output event topology (35 % with cycles / self events) "
                 "between them; optionally a FuncBlock over all of them whose first evaluation succeeds or "
                 "raises and a block with asynchronous clean-up; EVERY creation order of every "
                 "configuration is run. Observed: call log of the init routines and handlers, wait_init() "
                 "outcome, outputs and is_ready() at that moment, virtual time spent. Non-trivial = an "
                 "init-time event was handled or an init_async task ran.")
-    run.assumptions = ["event topologies are acyclic (no recursion errors during start-up)",
-                       "completion times and timeouts never coincide (odd vs even milliseconds): the order "
+    run.assumptions = [
+                       "completion times and timeouts never coincide (timeouts 0 mod 4, completions 2 mod 4, poll instants odd, in ticks of 0.5 ms): the order "
                        "of two asyncio timers of the same instant is not modelled",
                        "library blocks InitAsync/ValuePoll are event sources only, never destinations",
                        "the order-independence clause is decided by the exhaustive run of all creation "
                        "orders of each sampled configuration, not by a theorem (see Props/C05.v)"]
     nbase = 60 if run.tier == 'quick' else 900
     cases = []
-    for i in range(nbase):
-        base = gen_base(run.rng, 4 if (run.tier != 'quick' or i % 4 == 0) else 3)
+    for i in range(-len(DIRECTED), nbase):
+        if i < 0:
+            base = [dict(b) for b in DIRECTED[i]]
+        else:
+            base = gen_base(run.rng, 4 if (run.tier != 'quick' or i % 4 == 0) else 3)
         cb = run.rng.choice([None, None, 'ok', 'ok', 'fail'])
         cl = run.rng.random() < 0.3
         run.count('blocks_%d' % len(base))
